@@ -291,7 +291,10 @@ func c14Prop(c *sim.Case) {
 // denies. What an earlier filter of a chain put on its OK must not reach the browser when a later filter denies, and
 // an OK adds exactly what the filter that judged it is configured to add.
 func c14Chains(c *sim.Case) {
-	order := sim.Pick(c, "order", 32) // sharding draw
+	order := sim.Pick(c, "order", 64) // sharding draw
+	// chain a starts with a mock filter that allows, and a third chain ("pub") consists of such a filter only: what an
+	// OIDC filter adds to ITS answer must not end up in anybody else's
+	leadingAllow := (order/32)%2 == 1
 	// both chains under one cookie name (two routes into one application, one of which passes the access token on): the
 	// session of one is then presented to the other as a matter of course
 	samePrefix := (order/16)%2 == 1
@@ -331,10 +334,17 @@ func c14Chains(c *sim.Case) {
 	full := &configv1.Config{}
 	for _, n := range []string{"a", "b"} {
 		fs := []*configv1.Filter{{Type: &configv1.Filter_Oidc{Oidc: cfgs[n]}}}
+		if n == "a" && leadingAllow {
+			fs = append([]*configv1.Filter{{Type: &configv1.Filter_Mock{Mock: &mockv1.MockConfig{Allow: true}}}}, fs...)
+		}
 		if n == "b" && trailingDeny {
 			fs = append(fs, &configv1.Filter{Type: &configv1.Filter_Mock{Mock: &mockv1.MockConfig{Allow: false}}})
 		}
 		full.Chains = append(full.Chains, &configv1.FilterChain{Name: n, Match: &configv1.Match{Header: "x-tenant", Criteria: &configv1.Match_Equality{Equality: n}}, Filters: fs})
+	}
+	if leadingAllow {
+		full.Chains = append(full.Chains, &configv1.FilterChain{Name: "pub", Match: &configv1.Match{Header: "x-tenant", Criteria: &configv1.Match_Equality{Equality: "pub"}},
+			Filters: []*configv1.Filter{{Type: &configv1.Filter_Mock{Mock: &mockv1.MockConfig{Allow: true}}}}})
 	}
 	ctx, cancel := context.WithCancel(context.Background())
 	defer cancel()
@@ -386,13 +396,21 @@ func c14Chains(c *sim.Case) {
 			}
 		}
 		if r.OK {
-			allowed := map[string]bool{"authorization": true}
-			if cfgs[tenant].GetAccessToken() != nil {
-				allowed["x-access-token"] = true
+			allowed := map[string]bool{}
+			if cfgs[tenant] != nil {
+				allowed["authorization"] = true
+				if cfgs[tenant].GetAccessToken() != nil {
+					allowed["x-access-token"] = true
+				}
 			}
+			seen := map[string]int{}
 			for _, hv := range r.Headers {
-				if !allowed[strings.ToLower(hv.K)] {
+				k := strings.ToLower(hv.K)
+				if !allowed[k] {
 					c.Violation("ok-adds-more-than-token-headers", "%s: the OK of chain %s adds upstream header %q, which its filter is not configured to add", what, tenant, hv.K)
+				}
+				if seen[k]++; seen[k] > 1 {
+					c.Violation("ok-adds-more-than-token-headers", "%s: the OK of chain %s adds upstream header %q %d times (one session, one token)", what, tenant, hv.K, seen[k])
 				}
 			}
 		}
@@ -410,6 +428,20 @@ func c14Chains(c *sim.Case) {
 	if bFirst {
 		seq = []string{"b", "a"}
 	}
+	pubProbe := func(when string) {
+		if !leadingAllow {
+			return
+		}
+		saved := jar
+		jar = map[string]string{} // somebody else, without any cookie
+		r := send("public chain "+when, "pub", "/public")
+		jar = saved
+		if !r.OK {
+			c.Violation("chain-verdict", "the public chain (one mock filter that allows) answered %v", r)
+		}
+	}
+	defer pubProbe("at the end")
+	pubProbe("before any login")
 	if samePrefix {
 		// one login; its cookie then goes to both chains, in both orders: whoever answers OK adds what ITS filter is
 		// configured to add, whichever filter the session was created through or served by before
